@@ -1,6 +1,6 @@
 (* C09 - Thinking time (model-level part on IEEE-754 binary64, Flocq). *)
 From Coq Require Import ZArith.
-From Walleye Require Import Model.Prim Gen.Consts Model.TimeControl.
+From Walleye Require Import Model.Prim Gen.Consts Model.TimeControl Proofs.TimeBound.
 Open Scope Z_scope.
 
 (* the slice is computed from the mover's clock, the mover's increment and movestogo only *)
@@ -10,7 +10,7 @@ Theorem C09_own_side_only : forall gt gt' c,
   (c = Black -> btime gt = btime gt' /\ binc gt = binc gt') ->
   calculate_time_slice gt c = calculate_time_slice gt' c.
 Proof.
-  intros gt gt' c Hm Hw Hb. unfold calculate_time_slice. rewrite Hm.
+  intros gt gt' c Hm Hw Hb. unfold calculate_time_slice, moves_to_go. rewrite Hm.
   destruct c.
   - destruct (Hw eq_refl) as [-> ->]. reflexivity.
   - destruct (Hb eq_refl) as [-> ->]. reflexivity.
@@ -31,6 +31,27 @@ Theorem C09_instances :
   calculate_time_slice (mkGT 0 (2 ^ 127 - 1) 0 0 (Some 1)) Black <= 2 ^ 127 - 1 - 100.
 Proof. repeat split; vm_compute; try reflexivity. discriminate. Qed.
 
+(* the bound itself, on the IEEE-754 binary64 computation (every rounding included): for the mover's clock and
+   increment below 2^53 ms in magnitude and any movestogo (0 counts as not told), the planned time never exceeds the
+   mover's remaining clock; with more than the 100 ms margin left it never exceeds clock - margin; with no usable
+   clock and no increment it is zero *)
+Theorem C09_never_exceeds_the_clock : forall gt c,
+  let clock := match c with White => wtime gt | Black => btime gt end in
+  let inc := match c with White => winc gt | Black => binc gt end in
+  Z.abs clock < 2 ^ 53 -> Z.abs inc < 2 ^ 53 ->
+  (match movestogo gt with Some m => 0 <= m < 2 ^ 32 | None => True end) ->
+  calculate_time_slice gt c <= Z.max clock 0 /\
+  (100 < clock -> calculate_time_slice gt c <= clock - 100) /\
+  (clock <= 100 -> inc <= 0 -> calculate_time_slice gt c = 0).
+Proof. exact slice_within_clock. Qed.
+
+(* movestogo 0 is read as "not told" (the repaired defect F12: it used to divide by zero and plan 2^128 - 1 ms) *)
+Theorem C09_movestogo_zero_is_not_told : forall w b wi bi c,
+  calculate_time_slice (mkGT w b wi bi (Some 0)) c = calculate_time_slice (mkGT w b wi bi None) c.
+Proof. intros. reflexivity. Qed.
+
 Print Assumptions C09_own_side_only.
+Print Assumptions C09_never_exceeds_the_clock.
+Print Assumptions C09_movestogo_zero_is_not_told.
 Print Assumptions C09_constants.
 Print Assumptions C09_instances.
